@@ -192,6 +192,7 @@ func (c *RepoCache) lock(events chan BuildEvent) error {
 	if err != nil {
 		return err
 	}
+	verifhook.Point("cache.lock.created")
 
 	pid := fmt.Sprintf("%d", os.Getpid())
 	_, err = f.Write([]byte(pid))
